@@ -60,6 +60,16 @@ Theorem C18_guarded_mask_irrelevant : forall t m m' p n, prog_guarded p = true -
 Proof. exact guarded_mask_irrelevant. Qed.
 Print Assumptions C18_guarded_mask_irrelevant.
 
+(* the option space: a configuration is valid iff its family is not the documented float64 one (leverage scores); the
+   skeleton of a family does not look at the options the family does not have (proved family by family with symbolic option
+   values), so the complete enumeration inside Coq runs over the normalised configurations only *)
+Theorem C18_valid_cfg_iff : forall c, valid_cfg c <-> c_fam c <> FLeverage.
+Proof. exact valid_cfg_iff. Qed.
+Print Assumptions C18_valid_cfg_iff.
+Theorem C18_skeleton_norm : forall c, skeleton c = skeleton (norm_cfg c).
+Proof. exact skeleton_norm. Qed.
+Print Assumptions C18_skeleton_norm.
+
 (* all modelled entry points, all option sets (incl. the exception fallback of active_set_nnls, repaired by c906acd),
    EVERY mask dtype m (the masked entry points cast the mask since the repair 45ef7df), every number of sweeps:
    every floating output stays in the precision class of the data's dtype t *)
@@ -116,7 +126,7 @@ Example C18_nonvacuous_cfg : valid_cfg (with_mask (cfg0 FParafac)) /\ In F32 ctx
   prog_guarded (skeleton_v true (with_mask (cfg0 FTucker))) = true /\ prog_guarded (skeleton_v false (with_mask (cfg0 FTucker))) = false /\
   out_of (mkenv F32 B) (with_mask (cfg0 FParafac)) 2 "factors" = Some F32 /\
   out_of (mkenv C64 I64) (with_mask (cfg0 FTucker)) 3 "core" = Some C64.
-Proof. repeat split; try (vm_compute; reflexivity); simpl; tauto. Qed.
+Proof. unfold valid_cfg. repeat split; try (vm_compute; reflexivity); simpl; tauto. Qed.
 Example C18_nonvacuous_expr :
   leaves_in (mkenv F32 F32) st0 F32 (Op (Div In_ (Op PyI PyF)) (Into In_ bare)) = true /\
   has_strong (mkenv F32 F32) st0 F32 (Op (Div In_ (Op PyI PyF)) (Into In_ bare)) = true.
